@@ -20,8 +20,9 @@ RULE = ("a case is one TYPE-LEVEL configuration (never a value pair): "
         "Deterministic part: type list T (fixed 1..16 bits signed/unsigned, "
         "po2 1..8 bits x caps, ternary, binary, binary01, bernoulli, "
         "stochastic_*, quantized_relu(1,1), ulaw, leaky relu) - all ordered "
-        "pairs of T as multipliers x N in {1,2,3,4,5,7,8,9,...,2^20-1,2^20} as "
-        "dense (N,o) and conv (kh,kw,ci,co) shapes x use_bias; all ordered "
+        "pairs of T as multipliers x a rotating third (thorough: half) of the N "
+        "list {1,2,3,4,5,8,9,...,2^20-1,2^20} as dense (N,o) and conv "
+        "(kh,kw,ci,co) shapes x use_bias; all ordered "
         "pairs of T as adder operands; a bias sample; all pairs of a merge "
         "list x 5 merge layers plus triples/quadruples; widenings of all of "
         "them.  Random part: Hypothesis draws of every case kind with bits <= "
@@ -617,8 +618,8 @@ def cases(tier):
     idx += 1
     w2, x2 = G.with_via(w, idx), G.with_via(x, idx // 2)
     for j, n in enumerate(ns):
-      if tier == "quick" and (j + idx) % 3:
-        continue            # quick: every pair gets a rotating third of the N list
+      if (tier == "quick" and (j + idx) % 3) or (tier != "quick" and (j + idx) % 2):
+        continue            # every pair gets a rotating third (thorough: half) of the N list
       shape = [n, 3] if (j // 3 + idx) % 2 == 0 else conv_shape(n)
       for bias in (False, True):
         yield {"t": "acc", "w": w2, "x": x2, "shape": shape, "bias": bias}
@@ -727,7 +728,7 @@ def run(ctx):
   def orc(case):
     return run_case(ctx, case, extra=("hyp",))
 
-  n = (4000 if ctx.quick else 150000) // ctx.n + 1
+  n = (2000 if ctx.quick else 100000) // ctx.n + 1
   core.hyp_run(ctx, case_strategy(st_), orc, n, name="c17")
   ctx.info["t_total_s"] = round(ctx.budget_s - ctx.time_left(), 1)
 
